@@ -194,7 +194,7 @@ fn op(p: Profile, users: u8, chans: u8) -> BoxedStrategy<Op> {
         )
             .prop_map(|(depth, extra, first, later_at, later)| Op::Reorg { depth, extra, first, later_at, later })
     };
-    let policy = (txref_p(p, chans), prop_oneof![3 => Just(Some(-26)), 1 => Just(Some(-25)), 1 => Just(Some(-1)), 2 => Just(None)])
+    let policy = (txref_p(p, chans), prop_oneof![3 => Just(Some(-26)), 1 => Just(Some(-25)), 1 => Just(Some(-1)), 1 => Just(Some(-28)), 1 => Just(Some(-10)), 1 => Just(Some(-22)), 3 => Just(None)])
         .prop_map(|(tx, code)| Op::SetPolicy { tx, code });
     match p {
         Profile::Breach | Profile::Lifecycle | Profile::Receipts => prop_oneof![
